@@ -70,6 +70,10 @@ pub fn problems(tier: Tier) -> Vec<(String, PProblem)> {
 pub fn problems_for(tier: Tier, scope: Scope) -> Vec<(String, PProblem)> {
     let mut out = problems(tier);
     out.extend(family_timedep().into_iter().map(|p| ("timedep".to_string(), p)));
+    // required breaks: accounting rules and the break's own hard rules
+    if matches!(scope, Scope::Accounting | Scope::Hard) {
+        out.extend(family_reqbreak().into_iter().map(|p| ("reqbreak".to_string(), p)));
+    }
     // clustering: accounting rules, and of the reporting rules only "overall statistic == sum of the tours"
     if matches!(scope, Scope::Accounting | Scope::Reporting) {
         out.extend(family_cluster().into_iter().map(|p| ("cluster".to_string(), p)));
@@ -116,6 +120,7 @@ pub fn judge(family: &str, problem: &PProblem, cfg: &SolveCfg, scope: Scope) -> 
                 .into_iter()
                 .filter(|f| oracle::in_scope(f, scope))
                 .filter(|f| family != "cluster" || f.rule.starts_with("C02:") || f.rule == "C03:statistic-total")
+                .filter(|f| family != "reqbreak" || f.rule.starts_with("C02:") || f.rule.starts_with("C01:required-break") || f.rule == "C01:capacity")
                 .map(|f| (finding_key(&f, family, problem), f))
                 .filter(|(key, _)| seen.insert(key.clone()))
                 .map(|(key, f)| Violation::new(key, f.what, scen.clone()))
